@@ -96,6 +96,47 @@ BROKEN = {
     "firstonly": "dm-cm-g2x3-c2x2", "nofinal": "dp-g1x2-c1-f1-s1-t1", "stopaterr": "unwired-middle",
 }
 
+# ---------------------------------------------------------------------------------------------------- instrument identity
+def ident(nm="req", kind="counter", num="int64", unit="", desc=""):
+    return dict(nm=nm, kind=kind, num=num, unit=unit, desc=desc)
+
+
+def ident_defs(readers, req, cseq, adds, cols, ncol=1, variant="ok", unwired=()):
+    """MetricIdent.tla: req = identities (handle = position, 1-based); cseq = {creator: [handles]}; adds = {rec: [(handle, i)]}"""
+    rec = lambda i: '[nm |-> "%s", kind |-> "%s", num |-> "%s", unit |-> "%s", desc |-> "%s"]' % (
+        i["nm"], i["kind"], i["num"], i["unit"], i["desc"])
+    key = lambda i: "/".join([i["nm"], i["kind"], i["num"], i["unit"], i["desc"]])
+    return {
+        "RD": fn({r[0]: '[temp |-> "%s", kind |-> "%s", wired |-> %s]' % (r[1], r[2], "FALSE" if r[0] in unwired else "TRUE")
+                  for r in readers}),
+        "PORDER": "<<" + ", ".join(q(r[0]) for r in readers) + ">>",
+        "REQ": "<<" + ", ".join(rec(i) for i in req) + ">>",
+        "CSEQ": fn(cseq, lambda hs: "<<" + ", ".join(str(h) for h in hs) + ">>"),
+        "ADDS": fn(adds, lambda xs: "<<" + ", ".join('[h |-> %d, id |-> <<"%s", %d>>]' % (h, key(req[h - 1]), i) for h, i in xs) + ">>"),
+        "COLRD": fn(cols, q), "NCOL": ncol, "VARIANT": variant,
+    }
+
+
+# pairs / triples of partially colliding identities x readers; two creators = the concurrent creation race
+IDENT_FAMILY = {
+    # number types collide (different instrument caches: the two creations interleave pipeline by pipeline)
+    "pair-num": dict(readers=R(DM, CM), req=[ident(), ident(num="float64")], cseq={"cr1": [1], "cr2": [2]},
+                     adds={"g1": [(1, 0), (1, 1)], "g2": [(2, 0)]}, cols={"c1": "r1", "c2": "r2"}, ncol=2),
+    # kinds collide + the identical request (handle 3 = handle 1): measurements through both handles add up in one stream
+    "triple-kind-same": dict(readers=R(DM, CM), req=[ident(), ident(kind="updown"), ident()], cseq={"cr1": [1, 3], "cr2": [2]},
+                             adds={"g1": [(1, 0), (3, 1)], "g2": [(2, 0)]}, cols={"c1": "r1", "c2": "r2"}, ncol=2),
+    # unit / description collide; three readers, the middle one cannot resolve the instruments
+    "triple-unit-desc": dict(readers=R(DM, DM, CM), req=[ident(), ident(unit="ms"), ident(desc="d2")], cseq={"cr1": [1, 2, 3]},
+                             adds={"g1": [(1, 0), (2, 0), (3, 0)]}, cols={"c1": "r1", "c3": "r3"}, ncol=2, unwired=("r2",)),
+}
+IDENT_THOROUGH = {
+    # number type x kind: three creators race, three readers
+    "triple-num-kind": dict(readers=R(DM, CM, DM), req=[ident(), ident(num="float64"), ident(kind="updown")],
+                            cseq={"cr1": [1], "cr2": [2], "cr3": [3]}, adds={"g1": [(1, 0), (2, 0), (3, 0)], "g2": [(1, 1)]},
+                            cols={"c1": "r1", "c2": "r2", "c3": "r3"}, ncol=1),
+}
+IDENT_BROKEN = {"addsync-nds": "pair-num", "cache-nokind": "triple-kind-same", "dupagg": "triple-kind-same"}
+
 # ---------------------------------------------------------------------------------------------------- scenarios
 def base_scenario(name, readers, nstreams, plan, cols, ncol, flushers=None, stoppers=None, script=None):
     """A harness scenario shaped like a model configuration: one int64 counter per stream key."""
@@ -199,6 +240,33 @@ FORCED = [
 ]
 
 
+def ident_scenario(name, kw, late):
+    """An IDENT_FAMILY configuration as a harness scenario (late = instruments are created by the recorder goroutines)."""
+    req = kw["req"]
+    canon = [next(j for j in range(len(req)) if req[j] == req[i]) for i in range(len(req))]
+    insts = []
+    for i, q_ in enumerate(req):
+        d = dict(name=q_["nm"], kind=q_["kind"], num=q_["num"], late=late, unit=q_["unit"], desc=q_["desc"])
+        if canon[i] != i:
+            d["aliasOf"] = canon[i]
+        insts.append(d)
+    count = {}
+    for xs in kw["adds"].values():
+        for h, i in xs:
+            count[canon[h - 1]] = max(count.get(canon[h - 1], 0), i + 1)
+    keys = {c: "k%d" % (n + 1) for n, c in enumerate(sorted(set(canon)))}
+    unw = kw.get("unwired", ())
+    sc = base_scenario(name, kw["readers"], 0, {}, kw["cols"], kw.get("ncol", 1))
+    sc.update(
+        readers=[dict(name=r[0], temp=r[1], kind=r[2], intervalUs=0, expMode="ok", badAgg=r[0] in unw) for r in kw["readers"]],
+        insts=insts,
+        streams=[dict(key=keys[c], inst=c, attr=1, n=max(count.get(c, 1), 1), neg=[]) for c in sorted(set(canon))],
+        recs=[[dict(key=keys[canon[h - 1]], i=i, **({"via": h - 1} if canon[h - 1] != h - 1 else {})) for h, i in kw["adds"][g]]
+              for g in sorted(kw["adds"])],
+        callback=False, script=[])
+    return sc
+
+
 def scenario_of(name, cfg, script, **extra):
     sc = _scenario_of(name, cfg, script)
     sc.update(extra)
@@ -282,6 +350,16 @@ def run(ctx):
                        defines=mc_defs(cberr=True, strict=True, **dict(FAMILY_QUICK["dp-g1x2-c1-f1-s1-t1"])), name="mc-D1-strict",
                        must_pass=False, count=False, timeout=1200, workers=2)
 
+    def identrun(name, kw, variant="ok"):
+        ok = variant == "ok"
+        return ctx.tlc(S, "MC_MetricIdent", "MC_MetricIdent.cfg", defines=ident_defs(variant=variant, **kw),
+                       name=("id-" + name) if ok else ("broken-id-" + variant), must_pass=ok, count=False, timeout=1200, workers=2)
+
+    idfam = dict(IDENT_FAMILY)
+    if thorough:
+        idfam.update(IDENT_THOROUGH)
+    fut_id = {n: pool.submit(identrun, n, kw) for n, kw in idfam.items()}
+    fut_idb = {v: pool.submit(identrun, c, IDENT_FAMILY[c], v) for v, c in IDENT_BROKEN.items()}
     fut_broken = {v: pool.submit(broken, v) for v in BROKEN}
     fut_d1 = pool.submit(d1strict)
     fut_sim = {n: pool.submit(sim, n) for n in SIMS}
@@ -291,6 +369,15 @@ def run(ctx):
         found[variant] = r["violated"]
         if r["violated"] != "Contract":
             ctx.note_inconclusive("model drift: TLC does not find the broken variant %s (%s, see %s)" % (variant, r["violated"], r["out"]))
+    for n, f in fut_id.items():           # counted here (not from the worker threads)
+        r = f.result()
+        ctx.states += r["distinct"]
+        ctx.transitions += r["generated"]
+    for variant, f in fut_idb.items():
+        r = f.result()
+        found[variant] = r["violated"]
+        if r["violated"] != "Contract":
+            ctx.note_inconclusive("model drift: TLC does not find the broken identity variant %s (%s, see %s)" % (variant, r["violated"], r["out"]))
     ctx.extra["broken_variants_found_by_tlc"] = found
     # known deviation D1 (callback error -> periodic reader drops the interval): the model exhibits it (Strict violated),
     # and with D1 admitted nothing else breaks
@@ -320,6 +407,9 @@ def run(ctx):
     for rep in range(12 if thorough else 4):
         for name, readers, colrd, pipe in FORCED:
             scenarios.append(forced_split(name, readers, colrd, pipe, hold_ms=3 + 2 * rep, settle_ms=10 + 10 * (rep % 4)))
+    for name, kw in {**IDENT_FAMILY, **IDENT_THOROUGH}.items():     # the identity configurations on the real code
+        for rep in range(6 if thorough else 2):
+            scenarios.append(ident_scenario("ident-" + name, kw, late=rep % 2 == 1))
     sfile = os.path.join(ctx.work, "scripts.json")
     json.dump(scenarios, open(sfile, "w"))
     jobs = [("scripts", ["scripts", "-in", sfile])]
@@ -331,6 +421,8 @@ def run(ctx):
         jobs.append(("storm%d" % (i // chunk), ["random", "-storm", "-n", str(chunk), "-seedoff", str(100000 + i)]))
     npart = 1200 if thorough else 200
     jobs.append(("partial", ["partial", "-n", str(npart)]))
+    nident = 1200 if thorough else 200
+    jobs.append(("ident", ["ident", "-n", str(nident)]))
     results = {}
     for label, args in jobs:   # the harness runs are sequential (they are the concurrency experiment)
         tf = os.path.join(ctx.work, "trace-%s.ndjson" % label)
@@ -349,6 +441,7 @@ def run(ctx):
     ctx.extra["random_scenarios"] = nrand
     ctx.extra["storm_scenarios"] = nstorm
     ctx.extra["partial_creation_scenarios"] = npart
+    ctx.extra["colliding_identity_scenarios"] = nident
     if scenarios:
         ctx.add_samples([{"behaviour_script": scenarios[0]["script"][:40]}])
     ctx.add_samples(results["random0"][1]["samples"][:1])
@@ -378,7 +471,7 @@ def run(ctx):
             cfg = scen[0] if scen and scen[0].get("ev") == "Cfg" else {}
             sig = classify(v, cfg)
             sig["source"] = ("scripts" if label == "scripts" else "storm" if label.startswith("storm") else
-                             "partial" if label == "partial" else "random")
+                             label if label in ("partial", "ident") else "random")
             kname = sig["kind"] + ("/observable" if sig.get("inst") == "observable" and sig.get("partial_creation_error") else "")
             kinds[kname] = kinds.get(kname, 0) + 1
             ctx.violation(sig, replay={"violation": v, "trace_file": tf, "events": scen[-300:]})
@@ -418,7 +511,8 @@ def run(ctx):
     # vacuity of the drivers: the interesting regimes must have been reached
     need = ["reports_nonempty_delta", "reports_with_adds_in_flight", "exports_run_loop", "exports_shutdown", "forceflush_ok",
             "shutdown_ok", "script_steps_followed", "callback_errors", "instrument_creation_errors", "partial_bad_first",
-            "partial_bad_middle", "partial_bad_last", "partial_bad_view_scenarios", "choreography_steps"]
+            "partial_bad_middle", "partial_bad_last", "partial_bad_view_scenarios", "choreography_steps", "ident_collision_num",
+            "ident_collision_kind", "ident_collision_unit", "ident_collision_desc", "ident_identical_requests", "ident_creation_races"]
     missing = [k for k in need if counters.get(k, 0) == 0]
     if missing:
         ctx.note_inconclusive("driver did not reach: %s" % missing)
